@@ -18,7 +18,9 @@ RULE = ("operation sequences of length 2..7 on the real default stack [bottom pr
         "After every op: result class, held locks per layer, flush lock and queue length are compared with the Lean model; the oracle checks "
         "caller-visible error, no held lock, completion of the follow-up. stream 'keepalive': rounds of the iq layer's keep-alive (what the ping thread does "
         "when its interval has elapsed) with the server's answer handled normally / with the application callback raising / undecodable / missing: no disconnect "
-        "is asked for while every ping has been answered, errors reach the caller, the stack stays usable. distinct = distinct op sequence.")
+        "is asked for while every ping has been answered, errors reach the caller, the stack stays usable. stream 'numbering': payload sizes around the frame limit pushed into the real noise + segment layers over a transport stand-in that numbers its "
+        "messages, per send against Model/SendNumbering. stream 'sockreset': the real asyncore dispatcher (tracked locks) over a socket whose send fails with a "
+        "disconnect errno. stream 'parked': a contact without a session whose key request fails, then later messages of that contact. distinct = distinct op sequence.")
 ASSUMPTIONS = ["operations are issued one at a time (by any thread): locks are threading.Lock without owner, so a held lock at quiescence means "
                "every later acquire blocks forever — detected deterministically by tracked locks instead of timeouts",
                "the sequence streams issue one operation at a time; concurrent receives (with a failure while another thread's frame is queued) are run "
